@@ -301,6 +301,7 @@ def run_property(pid, tier, seed):
         m, _, q = f.partition(':')
         return q if q.startswith('TT.') else 'fn:' + q
     extra['e1_functions_verified'] = e1_funcs
+    extra['e1_vacuity_inconclusive'] = sorted({o['name'] for o in obs if o['backend'] == 'E1' and 'INCONCLUSIVE vacuity guard' in (o.get('detail') or '')})
     extra['e1_unverified_functions'] = sorted(f for f in meta.get('functions', []) if _short(f) not in e1_names and not f.endswith('.*') and not f.endswith(':*'))
     if hasattr(pmod, 'evidence_extra'):
         try:
